@@ -626,7 +626,7 @@ func (in *inst) selectStmt(v *ast.SelectStmt, lab *ast.LabeledStmt) ast.Stmt {
 // ---------------------------------------------------------------------------
 // call-site swaps (expression level)
 
-var osSwaps = map[string]bool{"MkdirAll": true, "WriteFile": true, "ReadFile": true, "ReadDir": true, "Remove": true}
+var osSwaps = map[string]bool{"MkdirAll": true, "WriteFile": true, "ReadFile": true, "ReadDir": true, "Remove": true, "Rename": true}
 
 func (in *inst) swaps(f *ast.File) {
 	astutil.Apply(f, func(c *astutil.Cursor) bool {
